@@ -54,6 +54,7 @@ func init() {
 			{Name: "amd64-uload16-loads-4-bytes", File: "internal/engine/wazevo/backend/isa/amd64/machine.go", Old: "\tcase ssa.OpcodeUload16:\n\t\tload.asMovzxRmR(extModeWQ, mem, dst)", New: "\tcase ssa.OpcodeUload16:\n\t\tload.asMovzxRmR(extModeLQ, mem, dst)", Rule: "R02.4", Substr: "lowerExtLoad"},
 			{Name: "amd64-ireduce-plain-copy", File: "internal/engine/wazevo/backend/isa/amd64/machine.go", Old: "\t\tm.insert(m.allocateInstr().asMovzxRmR(extModeLQ, rn, rd))\n\n\tcase ssa.OpcodeAtomicLoad:", New: "\t\tm.copyTo(rn.reg(), rd)\n\n\tcase ssa.OpcodeAtomicLoad:", Old2: "\t\trn := m.getOperand_Mem_Reg(m.c.ValueDefinition(instr.Arg()))\n\t\tretVal := instr.Return()", New2: "\t\trn := m.getOperand_Reg(m.c.ValueDefinition(instr.Arg()))\n\t\tretVal := instr.Return()", Rule: "R02.5", Substr: "Ireduce"},
 			{Name: "v128-load-high-half-unguarded", File: "internal/engine/interpreter/interpreter.go", Old: "\t\t\t\tif uint64(offset)+8 > math.MaxUint32 { // offset+8 must not wrap around on a 4GiB memory.\n\t\t\t\t\tpanic(wasmruntime.ErrRuntimeOutOfBoundsMemoryAccess)\n\t\t\t\t}\n", New: "", Rule: "R02.9", Substr: "ReadUint64Le"},
+			{Name: "memory-shared-one-direction", File: "internal/wasm/store.go", Old: "if expected.IsShared != importedMemory.Shared {", New: "if importedMemory.Shared && !expected.IsShared {", Rule: "R02.8", Substr: "sharedness must be equal"},
 			{Name: "merge-skips-empty-predecessors", File: "internal/engine/wazevo/frontend/frontend.go", Old: "\t\t\tc.bounds = append(c.bounds, c.getKnownSafeBoundsAtTheEndOfBlocks(currentBlk.Pred(i).ID()).View())\n\t\t\tc.pointers = append(c.pointers, 0)\n", New: "\t\t\tif b := c.getKnownSafeBoundsAtTheEndOfBlocks(currentBlk.Pred(i).ID()).View(); len(b) > 0 {\n\t\t\t\tc.bounds = append(c.bounds, b)\n\t\t\t\tc.pointers = append(c.pointers, 0)\n\t\t\t}\n", Rule: "R02.7", Substr: "predecessor"},
 			{Name: "merge-keeps-larger-bound", File: "internal/engine/wazevo/frontend/frontend.go", Old: "\t\t\t\t\tif cb.bound < minBound {\n\t\t\t\t\t\tminBound = cb.bound\n\t\t\t\t\t}", New: "\t\t\t\t\tif cb.bound > minBound || minBound == math.MaxUint64 {\n\t\t\t\t\t\tminBound = cb.bound\n\t\t\t\t\t}", Rule: "R02.7", Substr: "minimum"},
 			{Name: "interp-load16-lowered-as-load8", File: "internal/engine/interpreter/compiler.go", Old: "\t\tc.emit(newOperationLoad16(signedUint32, imm))", New: "\t\tc.emit(newOperationLoad8(signedUint32, imm))", Rule: "R02.6", Substr: "OpcodeI32Load16U"},
